@@ -426,6 +426,30 @@ Definition predlist_add (n : node) (v : N) (more_than less_than : hint) (s : sor
   let '(a, b) := if pl_after_is_more_than then (more_than, less_than) else (less_than, more_than) in
   add n v a b s.
 
+(* the three predicate directives: add_view_predicate / add_route_predicate /
+   add_subscriber_predicate -> _add_predicate -> PredicateList.add; which directive
+   argument reaches which parameter is a regenerated fact at each hop *)
+Inductive pkind := PView | PRoute | PSubscriber.
+Definition pd_straight (k : pkind) : bool :=
+  match k with PView => pd_view_straight | PRoute => pd_route_straight | PSubscriber => pd_subscriber_straight end.
+Definition pd_defaults (k : pkind) : list node :=
+  match k with PView => pl_default_view_predicates | PRoute => pl_default_route_predicates
+             | PSubscriber => pl_default_subscriber_predicates end.
+Definition pred_directive (k : pkind) (n : node) (v : N) (more_than less_than : hint) (s : sorter) : sorter :=
+  let '(m, l) := if pd_straight k then (more_than, less_than) else (less_than, more_than) in
+  let '(m, l) := if pd_inner_straight then (m, l) else (l, m) in
+  predlist_add n v m l s.
+Definition preds_scenario (k : pkind) (adds : list (node * N * hint * hint)) : sorter :=
+  fold_left (fun s x => let '(n, f, m, l) := x in pred_directive k n f m l s) adds
+            (fold_left (fun s n => pred_directive k n 0%N HNone HNone s) (pd_defaults k) (new_sorter cfg_plain)).
+(* the property's reading: weighs_more_than X = sorts after X; weighs_less_than X = before X *)
+Definition pred_ops (k : pkind) (adds : list (node * N * hint * hint)) : list op :=
+  map (fun n => OAdd n 0%N HNone HNone) (pd_defaults k) ++
+  map (fun x => let '(n, f, m, l) := x in OAdd n f m l) adds.
+(* instrumented (id > 0) predicates are evaluated in list order *)
+Definition eval_order (use : list (node * N)) : list node :=
+  map fst (filter (fun nf => negb (N.eqb (snd nf) 0)) use).
+
 (* =====================================================================
    wire glue *)
 Definition get_hint (v : val) : option hint :=
@@ -526,17 +550,9 @@ Definition get_tadd (v : val) : option (node * N * hint * hint) :=
   | _ => None
   end.
 
-(* one add_tween call under autocommit: argument check, then add_implicit *)
-Definition tween_step (st : tweens * list N) (x : node * N * hint * hint) : tweens * list N :=
-  let '(t, codes) := st in
-  let '(n, f, u, o) := x in
-  let c := add_tween_check n u o in
-  if N.eqb c 0 then (add_implicit n f u o t, codes ++ [0%N]) else (t, codes ++ [c]).
-
-Definition tweens_scenario (explicit : list (node * N)) (adds : list (node * N * hint * hint)) : tweens * list N :=
+Definition tweens_init (explicit : list (node * N)) : tweens :=
   let t0 := fold_left (fun t n => add_implicit n 0%N HNone HNone t) tw_default_adds new_tweens in
-  let t1 := fold_left (fun t nf => add_explicit (fst nf) (snd nf) t) explicit t0 in
-  fold_left tween_step adds (t1, []).
+  fold_left (fun t nf => add_explicit (fst nf) (snd nf) t) explicit t0.
 
 (* instrumented tweens only (factory id > 0) appear in the observed trace *)
 Fixpoint trace_user (h : handler) : list event :=
@@ -547,11 +563,6 @@ Fixpoint trace_user (h : handler) : list event :=
 
 Definition put_pairs (l : list (node * N)) : val := VL (map (fun nv => VL [VT (fst nv); vN (snd nv)]) l).
 
-(* declarations of a tween scenario, for the judge *)
-Definition tween_ops (adds : list (node * N * hint * hint)) : list op :=
-  map (fun n => OAdd n 0%N HNone HNone) tw_default_adds ++
-  flat_map (fun x => let '(n, f, u, o) := x in
-                     if N.eqb (add_tween_check n u o) 0 then [OAdd n f u o] else []) adds.
 Definition decls_of (c : cfg) (ops : list op) : list decl := fold_left (spec_op c) ops [].
 
 (* expected trace for a given use order: enter in order, leave in reverse *)
@@ -568,9 +579,38 @@ Fixpoint forallb2_eq (a b : list (node * N)) : bool :=
 Definition get_pairs (l : list val) : option (list (node * N)) :=
   map_opt (fun x => match x with VL [VT n; VI z] => Some (n, Z.to_N z) | _ => None end) l.
 
-(* judge of a tween scenario: obs = [0; implicit outcome or []; use; trace] | [1; outcome] *)
-Definition judge_tweens (explicit : list (node * N)) (adds : list (node * N * hint * hint)) (obs : val) : bool :=
-  let ds := decls_of cfg_tweens (tween_ops adds) in
+(* a history of a Tweens utility: add_tween calls interleaved with looks at the order *)
+Inductive tevent := TAdd (x : node * N * hint * hint) | TImplicit | TRequest.
+
+(* Router(registry): tweens(handle_request, registry), then one request *)
+Definition request_obs (t : tweens) : val :=
+  match tweens_call t Base with
+  | inr h => VL [VI 0;
+                 put_pairs (if nonempty (tw_explicit t) then tw_explicit t
+                            else match implicit t with Sorted u => u | _ => [] end);
+                 VL (map put_event (trace_user h))]
+  | inl e => VL [VI 1; put_outcome e]
+  end.
+
+Fixpoint tweens_history (t : tweens) (evs : list tevent) : list val :=
+  match evs with
+  | [] => []
+  | TAdd (n, f, u, o) :: r =>
+      let c := add_tween_check n u o in
+      if N.eqb c 0 then vN 0 :: tweens_history (add_implicit n f u o t) r
+      else vN c :: tweens_history t r
+  | TImplicit :: r => put_outcome (implicit t) :: tweens_history t r
+  | TRequest :: r => request_obs t :: tweens_history t r
+  end.
+
+(* the declarations in force: under = after, over = before; refused calls declare nothing *)
+Definition tween_decl_ops (x : node * N * hint * hint) : list op :=
+  let '(n, f, u, o) := x in if N.eqb (add_tween_check n u o) 0 then [OAdd n f u o] else [].
+Definition tweens_init_decls : list decl :=
+  decls_of cfg_tweens (map (fun n => OAdd n 0%N HNone HNone) tw_default_adds).
+
+(* judge of one request observation = what a fresh Tweens built from the current declarations may give *)
+Definition judge_request (explicit : list (node * N)) (ds : list decl) (obs : val) : bool :=
   match obs with
   | VL [VI 0%Z; VL use; VL tr] =>
       match get_pairs use, map_opt get_event tr with
@@ -588,6 +628,19 @@ Definition judge_tweens (explicit : list (node * N)) (adds : list (node * N * hi
       | None => false
       end
   | _ => false
+  end.
+
+Fixpoint judge_history (explicit : list (node * N)) (ds : list decl) (evs : list tevent) (obs : list val) : list val :=
+  match evs, obs with
+  | TAdd x :: r, v :: vr =>
+      let '(n, _, u, o) := x in
+      vbool (match v with VI z => Z.eqb z (Z.of_N (add_tween_check n u o)) | _ => false end)
+      :: judge_history explicit (fold_left (spec_op cfg_tweens) (tween_decl_ops x) ds) r vr
+  | TImplicit :: r, v :: vr =>
+      vbool (match get_outcome v with Some out => judge cfg_tweens ds out | None => false end)
+      :: judge_history explicit ds r vr
+  | TRequest :: r, v :: vr => vbool (judge_request explicit ds v) :: judge_history explicit ds r vr
+  | _, _ => []
   end.
 
 (* ---- deriver scenario: default derivers, then add_view_deriver calls, then one view *)
@@ -625,6 +678,22 @@ Definition judge_derivers (adds : list (node * N * hint * hint)) (obs : val) : b
   | _ => false
   end.
 
+Definition get_tevent (v : val) : option tevent :=
+  match v with
+  | VL [VI 0%Z; x] => olet x := get_tadd x in Some (TAdd x)
+  | VL [VI 1%Z] => Some TImplicit
+  | VL [VI 2%Z] => Some TRequest
+  | _ => None
+  end.
+Definition get_pkind (v : val) : option pkind :=
+  match v with VI 0%Z => Some PView | VI 1%Z => Some PRoute | VI 2%Z => Some PSubscriber | _ => None end.
+Fixpoint texts_eqb (a b : list text) : bool :=
+  match a, b with
+  | [], [] => true
+  | x :: a', y :: b' => text_eqb x y && texts_eqb a' b'
+  | _, _ => false
+  end.
+
 Definition put_codes (l : list N) : val := VL (map vN l).
 Definition put_events (l : list event) : val := VL (map put_event l).
 
@@ -637,20 +706,12 @@ Definition run_C18 (v : val) : val :=
     | VL [VI 1%Z; c; ops; VL obs] =>
         olet c := get_cfg c in olet ops := get_list_of get_op ops in
         Some (VL (judge_steps c [] ops obs))
-    | VL [VI 2%Z; VL ex; adds] =>
-        olet ex := get_pairs ex in olet adds := get_list_of get_tadd adds in
-        let '(t, codes) := tweens_scenario ex adds in
-        Some (VL [put_codes codes;
-                  match tweens_call t Base with
-                  | inr h => VL [VI 0;
-                                 put_pairs (if nonempty (tw_explicit t) then tw_explicit t
-                                            else match implicit t with Sorted u => u | _ => [] end);
-                                 put_events (trace_user h)]
-                  | inl e => VL [VI 1; put_outcome e]
-                  end])
-    | VL [VI 3%Z; VL ex; adds; obs] =>
-        olet ex := get_pairs ex in olet adds := get_list_of get_tadd adds in
-        Some (vbool (judge_tweens ex adds obs))
+    | VL [VI 2%Z; VL ex; evs] =>
+        olet ex := get_pairs ex in olet evs := get_list_of get_tevent evs in
+        Some (VL (tweens_history (tweens_init ex) evs))
+    | VL [VI 3%Z; VL ex; evs; VL obs] =>
+        olet ex := get_pairs ex in olet evs := get_list_of get_tevent evs in
+        Some (VL (judge_history ex tweens_init_decls evs obs))
     | VL [VI 4%Z; adds] =>
         olet adds := get_list_of get_tadd adds in
         let '(s, codes) := derivers_scenario adds in
@@ -664,5 +725,14 @@ Definition run_C18 (v : val) : val :=
     | VL [VI 5%Z; adds; obs] =>
         olet adds := get_list_of get_tadd adds in
         Some (vbool (judge_derivers adds obs))
+    | VL [VI 6%Z; k; adds] =>
+        olet k := get_pkind k in olet adds := get_list_of get_tadd adds in
+        let o := sorted (preds_scenario k adds) in
+        Some (VL [put_outcome o; vtexts (match o with Sorted use => eval_order use | _ => [] end)])
+    | VL [VI 7%Z; k; adds; VL [o; ev]] =>
+        olet k := get_pkind k in olet adds := get_list_of get_tadd adds in
+        olet out := get_outcome o in olet ev := get_texts ev in
+        Some (vbool (judge cfg_plain (decls_of cfg_plain (pred_ops k adds)) out
+                     && texts_eqb ev (match out with Sorted use => eval_order use | _ => [] end)))
     | _ => None
     end).
